@@ -23,6 +23,13 @@ CONSTANTS
   TgItems = 3
   Precisions = {0, 1, 2, 3, 5}
   Base = 3
+  TgUTimes <- TgUTimesThorough
+  TgUItems = 3
+  TgUPrecisions = {1, 2, 3, 5}
+  TrnIdCores <- TrnIdCoresThorough
+  TrnIdPad = 2
+  TrnIdPadColl = 1
+  TrnIdUtts = 3
   TokTimes <- TokTimesThorough
   TokItems = 2
   Shifts <- ShiftsThorough
@@ -39,5 +46,11 @@ INVARIANT TgMonotone
 INVARIANT TgFillAgree
 INVARIANT TgFillPartition
 INVARIANT TokBound
+INVARIANT TrnIdRoundTrip
+INVARIANT TrnIdInjective
+INVARIANT TguRoundTrip
+INVARIANT TguBoundsNearest
+INVARIANT TguFillAgree
+INVARIANT TguExtendsTg
 INVARIANT Export
 CHECK_DEADLOCK FALSE
